@@ -320,7 +320,11 @@ func (i *interpreter) formatArg(fr *frame, spec string, verb byte, arg value) *T
 	case symInt:
 		// no symbolic integer formatting: an opaque string that is a function
 		// of the value and the verb
-		return opaqueStringOf("fmt%"+spec+string(verb), x.t)
+		kind := "fmt%" + spec + string(verb)
+		if _, signed := kindBits(x.k); !signed {
+			kind += "u"
+		}
+		return i.ps.opaque(kind, x.t)
 	case symBool:
 		return mkIte(x.t, mkStr("true"), mkStr("false"))
 	case string:
